@@ -241,6 +241,18 @@ pub fn run_c08(ctx: &mut Ctx, known: &Known) {
             }
         }
     }
+    // members and values with multi-byte characters (a value may have fewer characters than a member
+    // has bytes and still satisfy every member)
+    {
+        let docs: Vec<Yaml> = ["日€日", "ßä", "é", "éé", "日", "€日", "", "Äé", "x日€日y", "日€", "aé", "éa", "ä€ä"].iter().map(|h| map1("f", ys(h))).collect();
+        for ms in [vec!["日€*", "*€日"], vec!["*ßä*", "*ä"], vec!["é*", "*é"], vec!["*é*", "*éé"], vec!["iÄ*", "i*é"], vec!["*€*", "日*", "*日"], vec!["?^日", "?日$"], vec!["é", "*é", "é*"], vec!["ä€*", "*€ä", "*€*"]] {
+            let members: Vec<Yaml> = ms.iter().map(|m| ys(m)).collect();
+            let hits = c08_eval(ctx, known, &members, &docs, &format!("multibyte:{}", ms.join(",")));
+            if hits > 0 {
+                *ctx.known_hits.entry("random:C08-batched-member".into()).or_insert(0) += hits;
+            }
+        }
+    }
     let n = budget(ctx, 400, 12000);
     for i in 0..n {
         let mut r = Rng::new(ctx.seed.wrapping_mul(523).wrapping_add(i as u64));
@@ -422,6 +434,12 @@ pub fn run_c11(ctx: &mut Ctx, _known: &Known) {
     k!(Some(0.1f32), format!("float:{}", (0.1f32 as f64).to_bits()));
     k!(vec![0.1f32, 2.5], format!("arr[float:{},float:{}]", (2.5f64).to_bits().min((0.1f32 as f64).to_bits()), (2.5f64).to_bits().max((0.1f32 as f64).to_bits())));
     k!(-0.0f64, format!("float:{}", (-0.0f64).to_bits()));
+    k!(f64::INFINITY, format!("float:{}", f64::INFINITY.to_bits()));
+    k!(f64::NEG_INFINITY, format!("float:{}", f64::NEG_INFINITY.to_bits()));
+    k!(f32::INFINITY, format!("float:{}", f64::INFINITY.to_bits()));
+    k!(f32::NEG_INFINITY, format!("float:{}", f64::NEG_INFINITY.to_bits()));
+    kinds.push(("f64::NAN".to_string(), { let v = f64::NAN.as_value(); match v { Value::Float(x) if x.is_nan() => "float:nan".to_string(), other => kind_name(&other) } }, "float:nan".to_string()));
+    kinds.push(("f32::NAN".to_string(), { let v = f32::NAN.as_value(); match v { Value::Float(x) if x.is_nan() => "float:nan".to_string(), other => kind_name(&other) } }, "float:nan".to_string()));
     k!(f64::MAX, format!("float:{}", f64::MAX.to_bits()));
     k!(true, "bool:true");
     k!(String::from("s"), "str:s");
@@ -589,6 +607,61 @@ pub fn run_c11(ctx: &mut Ctx, _known: &Known) {
                     if reps.iter().any(|(_, b)| *b != reps[0].1) {
                         let dummy = ctx.exchange("tok s:");
                         ctx.violation("oracle", &format!("rule `{}` / `{}` (mask {}), ports = {:?}: verdicts differ between representations: {:?}", body, cond, mask, a, reps), &dummy, &text, true);
+                    }
+                }
+            }
+        }
+    }
+    // (1e) non-finite floats are floats in every representation that can hold them; a YAML tag on a
+    //      collection does not change what the collection is
+    {
+        for (key, pat) in [("f", ">1.5"), ("f", "<-1.5"), ("f", ">=0"), ("f", "=1"), ("str(f)", "inf"), ("str(f)", "NaN"), ("str(f)", "-inf"), ("flt(f)", ">1.5"), ("int(f)", ">1")] {
+            for cond in ["A", "not A"] {
+                let cs = case_of(vec![("A".into(), map1(key, ys(pat))), ("condition".into(), ys(cond))], vec![], vec![0]);
+                let rule = match Rule::from_value(implside::rule_value(&cs)) { Ok(r) => r, Err(_) => continue };
+                let opt = rule.clone().optimise(implside::opts(15));
+                for x in [f64::INFINITY, f64::NEG_INFINITY, f64::NAN, 2.0] {
+                    ctx.evaluations += 1;
+                    ctx.nontrivial.insert(hash_str(&format!("nonfinite{}{}{}{}", key, pat, cond, x.to_bits())));
+                    let mut ym = Mapping::new();
+                    ym.insert(ys("f"), Yaml::Number(x.into()));
+                    let mut h64: HashMap<String, f64> = HashMap::new();
+                    h64.insert("f".into(), x);
+                    let mut h32: HashMap<String, f32> = HashMap::new();
+                    h32.insert("f".into(), x as f32);
+                    let mut ho: HashMap<String, Option<f64>> = HashMap::new();
+                    ho.insert("f".into(), Some(x));
+                    let my = MyObj(vec![("f".to_string(), MyVal::Float(x))]);
+                    for (rn, rl) in [("unoptimised", &rule), ("optimised", &opt)] {
+                        let reps = [("yaml mapping", rl.matches(&ym)), ("HashMap<String, f64>", rl.matches(&h64)), ("HashMap<String, f32>", rl.matches(&h32)), ("HashMap<String, Option<f64>>", rl.matches(&ho)), ("hand-written Object (f64)", rl.matches(&my))];
+                        if reps.iter().any(|(_, b)| *b != reps[0].1) {
+                            let dummy = ctx.exchange("tok s:");
+                            ctx.violation("oracle", &format!("{} rule `{}: {}` ({}), f = {:?}: verdicts differ between representations: {:?}", rn, key, pat, cond, x, reps), &dummy, &rule_yaml(&cs), true);
+                        }
+                    }
+                }
+            }
+        }
+        let pairs = [
+            ("{f: !set [a, b]}", "{f: [a, b]}"), ("{o: !Process {k: a, j: 1}}", "{o: {k: a, j: 1}}"), ("{oa: !list [{k: a}, {k: b}]}", "{oa: [{k: a}, {k: b}]}"),
+            ("{argv: !v [x, a]}", "{argv: [x, a]}"), ("{o: !t {p: !u {k: a}}}", "{o: {p: {k: a}}}"), ("{f: !s a}", "{f: a}"), ("{o: {k: !s a}}", "{o: {k: a}}"),
+        ];
+        for body in ["f: a", "f: ['a*', '*b']", "o:\n      k: a", "o.k: a", "oa:\n      k: b", "argv[1]: a", "o.p.k: a", "o:\n      p:\n        k: a", "all(f): [a, b]", "str(f): a"] {
+            for cond in ["A", "not A"] {
+                let text = format!("detection:\n  A:\n    {}\n  condition: {}\ntrue_positives: []\ntrue_negatives: []\n", body, cond);
+                let rule = match Rule::from_str(&text) { Ok(r) => r, Err(_) => continue };
+                let opt = rule.clone().optimise(implside::opts(15));
+                for (tagged, plain) in pairs.iter() {
+                    ctx.evaluations += 1;
+                    ctx.nontrivial.insert(hash_str(&format!("tagged{}{}{}", body, cond, tagged)));
+                    let (yt, yp): (Mapping, Mapping) = (serde_yaml::from_str(tagged).unwrap(), serde_yaml::from_str(plain).unwrap());
+                    let js: serde_json::Value = serde_yaml::from_str(plain).unwrap();
+                    for (rn, rl) in [("unoptimised", &rule), ("optimised", &opt)] {
+                        let reps = [("the YAML mapping without tags", rl.matches(&yp)), ("the YAML mapping with tagged values", rl.matches(&yt)), ("serde_json value", rl.matches(&js))];
+                        if reps.iter().any(|(_, b)| *b != reps[0].1) {
+                            let dummy = ctx.exchange("tok s:");
+                            ctx.violation("oracle", &format!("{} rule `{}` ({}), document {}: verdicts differ between representations: {:?}", rn, body.replace('\n', " "), cond, tagged, reps), &dummy, &text, true);
+                        }
                     }
                 }
             }
@@ -835,6 +908,7 @@ pub fn run_c12(ctx: &mut Ctx, _known: &Known) {
     c12_history(ctx);
     c12_twins(ctx);
     c12_logging(ctx);
+    c12_maps_and_files(ctx);
     for i in 0..n {
         let mut r = Rng::new(ctx.seed.wrapping_mul(613).wrapping_add(i as u64));
         let mut c = gen_case(&mut r, vec![0, 15, 10, 7], 5);
@@ -1065,6 +1139,89 @@ fn c12_logging(ctx: &mut Ctx) {
                 }
             }
         }
+    }
+}
+
+/// (m) Equal documents give equal verdicts whatever order their map hands its keys out in (a HashMap is
+/// seeded per instance); and `Rule::load` is a function of the file's text, not of what the path held
+/// earlier.
+fn c12_maps_and_files(ctx: &mut Ctx) {
+    let dummy = |what: &str| Exchange { line: format!("maps-files {}", what), imp: String::new(), model: String::new(), agree: true, supported: false };
+    let rules = [
+        "commandline: '*evil*'", "CommandLine: '*evil*'", "proc.Name: cmd", "Proc:\n      name: cmd", "A_key: x",
+    ];
+    let docs: Vec<Vec<(&str, &str)>> = vec![
+        vec![("CommandLine", "evil thing"), ("Commandline", "good thing"), ("COMMANDLINE", "other")],
+        vec![("commandLine", "good"), ("COMMANDLINE", "very evil")],
+        vec![("a_key", "x"), ("A_KEY", "y"), ("a_Key", "z")],
+        vec![("CommandLine", "evil thing"), ("commandline", "good thing")],
+    ];
+    for body in rules.iter() {
+        for cond in ["A", "not A"] {
+            let text = format!("detection:\n  A:\n    {}\n  condition: {}\ntrue_positives: []\ntrue_negatives: []\n", body, cond);
+            let rule = match Rule::from_str(&text) { Ok(r) => r, Err(_) => continue };
+            for kvs in &docs {
+                let ym: Mapping = kvs.iter().map(|(k, v)| (ys(k), ys(v))).collect();
+                let base = rule.matches(&ym);
+                ctx.nontrivial.insert(hash_str(&format!("hm{}{}{:?}", body, cond, kvs)));
+                for i in 0..32 {
+                    ctx.evaluations += 1;
+                    let mut hm: HashMap<String, String> = HashMap::new();
+                    // insertion order varies as well
+                    for j in 0..kvs.len() {
+                        let (k, v) = kvs[(j + i) % kvs.len()];
+                        hm.insert(k.to_string(), v.to_string());
+                    }
+                    let got = rule.matches(&hm);
+                    if got != base {
+                        ctx.violation("oracle", &format!("the document {:?} gives {} as a YAML mapping but {} as one of 32 equal HashMap instances", kvs, base, got), &dummy("hashmap"), &text, true);
+                        break;
+                    }
+                }
+            }
+        }
+    }
+    // Rule::load: the same path, rewritten with a text of the same length and the same modification time
+    let dir = std::env::temp_dir().join(format!("tauh_c12_{}_{}", std::process::id(), ctx.seed));
+    if std::fs::create_dir_all(&dir).is_ok() {
+        let path = dir.join("rule.yml");
+        let mk = |exe: &str| format!("detection:\n  A:\n    image: '*\\{}.exe'\n  condition: A\ntrue_positives: []\ntrue_negatives: []\n", exe);
+        let d_cmd: Mapping = serde_yaml::from_str("{image: 'C:\\cmd.exe'}").unwrap();
+        let d_wsl: Mapping = serde_yaml::from_str("{image: 'C:\\wsl.exe'}").unwrap();
+        let mut ok = true;
+        let mut stamp: Option<std::time::SystemTime> = None;
+        for (round, exe) in ["cmd", "wsl", "cmd", "zsh"].iter().enumerate() {
+            let text = mk(exe);
+            if std::fs::write(&path, &text).is_err() { ok = false; break; }
+            if let Ok(f) = std::fs::OpenOptions::new().write(true).open(&path) {
+                match stamp {
+                    None => stamp = f.metadata().ok().and_then(|m| m.modified().ok()),
+                    Some(t) => { let _ = f.set_modified(t); }
+                }
+            }
+            ctx.evaluations += 1;
+            let loaded = Rule::load(&path);
+            let direct = Rule::from_str(&text);
+            match (loaded, direct) {
+                (Ok(a), Ok(b)) => {
+                    let pa = format!("{} {}", a.detection.expression, implside::ids_sx(&a.detection.identifiers));
+                    let pb = format!("{} {}", b.detection.expression, implside::ids_sx(&b.detection.identifiers));
+                    if pa != pb || a.matches(&d_cmd) != b.matches(&d_cmd) || a.matches(&d_wsl) != b.matches(&d_wsl) {
+                        ctx.violation("oracle", &format!("Rule::load of a file whose text is now {:?} (write {} to the same path, same length, same modification time) gives the rule {} instead of {}", exe, round + 1, trunc(&pa, 200), trunc(&pb, 200)), &dummy("load"), &text, true);
+                        break;
+                    }
+                }
+                (a, b) => {
+                    if a.is_ok() != b.is_ok() {
+                        ctx.violation("oracle", "Rule::load and Rule::from_str disagree on whether the file's text loads", &dummy("load"), &text, true);
+                        break;
+                    }
+                }
+            }
+        }
+        let _ = ok;
+        let _ = std::fs::remove_dir_all(&dir);
+        ctx.nontrivial.insert(hash_str("rule-load"));
     }
 }
 
@@ -1457,6 +1614,20 @@ pub fn run_c15(ctx: &mut Ctx, _known: &Known) {
         }
         if !ascii_rule_ok(&c) {
             continue;
+        }
+        // a comparison of two fields' texts holds no pattern: it is case-SENSITIVE in both builds
+        if i % 5 == 0 {
+            for (k, cv) in c.det.iter_mut() {
+                if k == "condition" {
+                    if let Yaml::String(t) = cv {
+                        *t = match (i / 5) % 3 { 0 => format!("({}) or str(s) == str(a)", t), 1 => format!("({}) and not (str(s) == str(a))", t), _ => "str(s) == str(a)".to_string() };
+                    }
+                }
+            }
+            for (x, y) in [("HOST-1", "host-1"), ("alice", "Alice"), ("same", "same"), ("True", "true")] {
+                c.docs.push(Yaml::Mapping([(ys("s"), ys(x)), (ys("a"), ys(y))].into_iter().collect()));
+            }
+            c.docs.push(Yaml::Mapping([(ys("s"), Yaml::Bool(true)), (ys("a"), ys("True"))].into_iter().collect()));
         }
         // only PATTERNS are case-insensitive, field names are not: documents whose keys differ from
         // the rule's fields in case only
